@@ -10,6 +10,11 @@
   * `raw` prints the reply as two lower-case hex digits per byte, separated by one blank;
     `parseHex` is the reader of that format (what a user / script does with the output).
   * last-wins option semantics (`lastWins`).
+  * What a conforming BMC may answer to the commands the printing handlers issue:
+    Get Port State (PICMG 3.0 §3.7.2.4, table 3-59) returns Link Info / State bytes only for a channel that
+    carries a link; the SDR repository holds records of every type of IPMI v2.0 ch. 43, only some of which
+    have an entity and an ID string; a full sensor record names one of twelve linearisation functions
+    (table 43-1 byte 24), not all of which are defined for every raw reading or threshold byte.
 
   Core Lean only.
 -/
@@ -80,5 +85,55 @@ def lastWins {β} (dflt : Nat → β) (sets : List (Nat × β)) (x : Nat) : β :
   match sets.reverse.find? (fun s => s.1 == x) with
   | some s => s.2
   | none => dflt x
+
+/-! ### replies of a conforming BMC that the printing handlers must cope with -/
+
+/-- Get Port State for a channel that exists: with or without a link on it -/
+inductive PortState where
+  | noLink
+  | link
+  deriving Repr, DecidableEq
+
+def PortState.all : List PortState := [.noLink, .link]
+def PortState.hasLink : PortState → Bool
+  | .noLink => false
+  | .link => true
+
+/-- IPMI v2.0 ch. 43: record type ↦ (record has an ID string, record has an entity id / instance).
+01h full, 02h compact, 03h event-only sensor; 08h entity association, 09h device-relative entity association
+(container / contained entities, no ID string); 10h generic, 11h FRU, 12h management controller device
+locator; 13h management controller confirmation; 14h BMC message channel info; C0h OEM. -/
+def sdrRecordTypes : List (Nat × Bool × Bool) := [
+  (0x01, true, true), (0x02, true, true), (0x03, true, true),
+  (0x08, false, false), (0x09, false, false),
+  (0x10, true, true), (0x11, true, true), (0x12, true, true),
+  (0x13, false, false), (0x14, false, false), (0xC0, false, false)]
+
+/-- table 43-1, byte 24 [6:0]: linearisation -/
+inductive Lin where
+  | linear | ln | log10 | log2 | e | exp10 | exp2 | reciprocal | sqr | cube | sqrt | cubeRoot
+  deriving Repr, DecidableEq
+
+def Lin.all : List Lin := [.linear, .ln, .log10, .log2, .e, .exp10, .exp2, .reciprocal, .sqr, .cube, .sqrt, .cubeRoot]
+
+def Lin.code : Lin → Nat
+  | .linear => 0 | .ln => 1 | .log10 => 2 | .log2 => 3 | .e => 4 | .exp10 => 5 | .exp2 => 6
+  | .reciprocal => 7 | .sqr => 8 | .cube => 9 | .sqrt => 10 | .cubeRoot => 11
+
+/-- sign of x = (M·raw + B·10^K1)·10^K2 -/
+inductive Sign where
+  | neg | zero | pos
+  deriving Repr, DecidableEq
+
+def Sign.all : List Sign := [.neg, .zero, .pos]
+
+/-- is the (real) function defined at an x of this sign?  Where it is not, the reading has no value
+("na"), which is not an error of the BMC: raw 0 is an ordinary reading and the content of every threshold
+byte the sensor does not support. -/
+def Lin.defined : Lin → Sign → Bool
+  | .ln, s | .log10, s | .log2, s => s == .pos
+  | .reciprocal, s => s != .zero
+  | .sqrt, s => s != .neg
+  | _, _ => true
 
 end PyIpmi.Spec.Cli
